@@ -114,13 +114,14 @@ def lib(variant):
     return a
 
 
-def harness(name, variant, extra_flags=(), extra_srcs=(), link=()):
+def harness(name, variant, extra_flags=(), extra_srcs=(), link=(), harness_variant=None):
     """compile harness/<name>.cpp against the variant's library; returns exe path"""
     a = lib(variant)
     hdir = os.path.join(VERIF, "harness")
     deps = glob.glob(os.path.join(hdir, "*.hpp")) + glob.glob(os.path.join(VERIF, "ref", "*.hpp"))
     srcs = [os.path.join(hdir, name + ".cpp")] + [os.path.join(hdir, s) for s in extra_srcs]
-    hh = _sha(deps + srcs, " ".join(extra_flags) + variant + " ".join(link))[:12]
+    hv = harness_variant or variant
+    hh = _sha(deps + srcs, " ".join(extra_flags) + variant + hv + " ".join(link))[:12]
     d = os.path.dirname(a)
     exe = os.path.join(d, "h_%s_%s" % (name, hh))
     if os.path.exists(exe):
@@ -133,7 +134,7 @@ def harness(name, variant, extra_flags=(), extra_srcs=(), link=()):
                 os.unlink(old)
             except OSError:
                 pass
-        flags = ["-std=gnu++17", "-fno-access-control"] + COMMON + VARIANTS[variant] + list(extra_flags) + \
+        flags = ["-std=gnu++17", "-fno-access-control"] + COMMON + VARIANTS[hv] + list(extra_flags) + \
                 ["-I", os.path.join(REPO, "src"), "-I", REPO, "-I", VERIF]
         tmp = exe + ".tmp%d" % os.getpid()
         _run(["g++"] + flags + srcs + [a, "-lz", "-llzma", "-lpthread", "-ldl"] + list(link) + ["-o", tmp], "harness " + name)
